@@ -35,8 +35,17 @@ func vhC11Read() {
 		r.endErr = rerr
 		r.eofWith = verifChoose("errwithdata", 2) == 1
 	}
-	o := vhRunRead(r, nil, -1)
+	stop := -1
+	if verifParam("STOPERR", 1) == 1 && verifChoose("stop", 2) == 1 {
+		stop = 1 // the consumer stops at the first event
+	}
+	o := vhRunRead(r, nil, stop)
 	verifAssert(!o.errAfter && o.errs <= 1, "C11/Read/no-event-after-error")
+	if o.stopped {
+		// stopping early: nothing more is yielded, in particular not the reader's error
+		verifAssert(o.errs == 0 && len(o.events) == 1, "C11/Read/nothing-yielded-after-the-consumer-stopped")
+		return
+	}
 	if failing {
 		verifAssert(o.err == rerr, "C11/Read/read-error-reported-as-itself")
 		// events completed before the failure are delivered, the pending one is dropped
